@@ -632,6 +632,23 @@ def rule_d(ctx: Ctx) -> None:
                     return True
         return False
 
+    # the cached hash is carried over before the children are attached: attaching them through set / append resets it again on every inner node, which keeps
+    # "a hashed node has only hashed descendants" (the invariant the upward invalidation walk of set() relies on to stop early)
+    m = f.module
+    blk = m.parent(loop)
+    seq = next((getattr(blk, fld) for fld in ("body", "orelse") if isinstance(getattr(blk, fld, None), list) and loop in getattr(blk, fld)), [])
+    before = seq[: seq.index(loop)] if loop in seq else []
+    for x in walk_no_nested(f.node):
+        if isinstance(x, ast.Attribute) and isinstance(x.ctx, ast.Store) and x.attr == "_hash":
+            st = m.enclosing_stmt(x)
+            top = st
+            while top is not None and top not in seq and top is not f.node:
+                top = m.parent(top)
+            if top in before and isinstance(st, ast.Assign) and norm(st.targets[0]) == "copy._hash" and norm(st.value) == "node._hash":
+                ctx.ok(f"{f.key}|{norm(st)} before the children are attached")
+            else:
+                ctx.fail(m, x, f.key, st, f"`{norm(st)}` stores a cached hash in __deepcopy__ outside the per-node carry-over that precedes attaching the children: a node whose children were "
+                                          f"attached through set / append has unhashed descendants, and a hash on it is never invalidated by later edits below it (set() stops climbing at the first unhashed ancestor)")
     if stores(loop.body):
         ctx.ok(f"{f.key}|every branch stores args[k]")
     else:
